@@ -141,6 +141,12 @@ func (w *world) rebuild() {
 	for _, lvl := range []string{strings.TrimSuffix(w.root, "/"), w.l1, w.outer} {
 		plantSet(lvl, sentToken+":"+lvl+"/")
 	}
+	// siblings of the base whose names extend the base's name: containment decided on strings
+	// ("has the base as a prefix") instead of on path components lets `../base-x/b` through
+	for _, sib := range prefixSiblings {
+		must(os.MkdirAll(w.outer+"/"+sib, 0o755))
+		plantSet(w.outer+"/"+sib, sentToken+":"+w.outer+"/"+sib+"/")
+	}
 	must(os.Symlink("b", w.outer+"/slink"))
 	must(os.Mkdir(w.hosttmp, 0o777))
 	must(os.Mkdir(w.base, 0o755))
@@ -356,6 +362,9 @@ func (w *world) inBase(p string) bool {
 
 // ---------------------------------------------------------------------------------------
 // base layouts: spellings of the same base directory given to localfs.WithBase
+
+// prefixSiblings are directories next to the base named <base's name><suffix>.
+var prefixSiblings = []string{"base-x", "base2"}
 
 var baseLayouts = []string{"clean", "slash", "unclean", "relative", "dotrel"}
 
